@@ -1650,4 +1650,209 @@ theorem stepCore_mons_frame {s : State} (w : WF s) (op : Op) (t n : Nat) (h : ad
               rw [hp.2.1] at this; exact htt this
   | _ => simp [addressed] at h
 
+
+
+/-! ### `cell.monitors`: what an operation writes -/
+
+theorem find?_filter_of_imp {α : Type} (p q : α → Bool) (l : List α) (h : ∀ e, q e = true → p e = true) :
+    (l.filter p).find? q = l.find? q := by
+  induction l with
+  | nil => rfl
+  | cons x xs ih =>
+    rw [List.filter_cons]
+    by_cases hq : q x = true
+    · rw [h x hq]; simp only [if_true, List.find?_cons, hq]
+    · simp only [Bool.not_eq_true] at hq
+      split
+      · simp only [List.find?_cons, hq]; exact ih
+      · simp only [List.find?_cons, hq]; exact ih
+
+theorem getCellMon_setCellMon_ne (cm : List (Nat × Nat × Nat)) (c m mid c' r : Nat) (h : c' ≠ c) :
+    getCellMon (setCellMon cm c m mid) c' r = getCellMon cm c' r := by
+  unfold getCellMon setCellMon
+  have h1 : ((c == c') && (m == r)) = false := by
+    have : (c == c') = false := by simpa using fun hc : c = c' => h hc.symm
+    simp [this]
+  rw [List.find?_cons]
+  simp only [h1]
+  rw [find?_filter_of_imp]
+  intro e he
+  simp only [Bool.and_eq_true, beq_iff_eq] at he
+  have : (e.1 == c) = false := by simpa using fun hc : e.1 = c => h (he.1 ▸ hc)
+  simp [this]
+
+theorem getCellMon_filter (cm : List (Nat × Nat × Nat)) (p : Nat × Nat × Nat → Bool) (c r src : Nat)
+    (h : getCellMon cm c r = some src) (hp : ∀ e ∈ cm, e.2.2 = src → p e = true) :
+    getCellMon (cm.filter p) c r = some src := by
+  unfold getCellMon at h ⊢
+  induction cm with
+  | nil => simp at h
+  | cons x xs ih =>
+    rw [List.find?_cons] at h
+    rw [List.filter_cons]
+    by_cases hx : (x.1 == c && x.2.1 == r) = true
+    · simp only [hx] at h
+      have hs : x.2.2 = src := by simpa using h
+      rw [hp x List.mem_cons_self hs]
+      simp only [if_true, List.find?_cons, hx]; exact h
+    · simp only [Bool.not_eq_true] at hx
+      simp only [hx] at h
+      have ih' := ih h (fun e he => hp e (List.mem_cons_of_mem _ he))
+      split
+      · rw [List.find?_cons]; simp only [hx]; exact ih'
+      · exact ih'
+
+theorem deregIfEval_cellMons (s : State) (t mid : Nat) : (deregIfEval s t mid).cellMons = s.cellMons := by
+  unfold deregIfEval; split <;> simp
+
+theorem eraseExisting_cellMons (s : State) (t n mname : Nat) : (eraseExisting s t n mname).cellMons = s.cellMons := by
+  unfold eraseExisting; simp only; split <;> rfl
+
+theorem eraseExisting_cells (s : State) (t n mname : Nat) :
+    ((eraseExisting s t n mname).trainers t).cells = (s.trainers t).cells := by
+  unfold eraseExisting; simp only; split
+  · simp
+  · rfl
+
+theorem obtainMonitor_cellMons (s : State) (t cell mname : Nat) (unique prepend : Bool) (tags : Nat) (path : Path)
+    (reads : List Nat) : (obtainMonitor s t cell mname unique prepend tags path reads).1.cellMons = s.cellMons := by
+  unfold obtainMonitor; split
+  · simp
+  · split <;> simp
+
+theorem addMonitor_cells (s : State) (t n mname : Nat) (sel : AttrSel) (unique prepend : Bool) (tags : Nat)
+    (reads : List Nat) :
+    ((addMonitor s t n mname sel unique prepend tags reads).1.trainers t).cells = (s.trainers t).cells := by
+  unfold addMonitor
+  split
+  · rfl
+  · simp only
+    split
+    · rfl
+    · split
+      · exact eraseExisting_cells ..
+      · unfold addMonitorTail poolInsert
+        simp only [setTrainer_trainers_self, deregIfEval_trainers]
+        show ((obtainMonitor _ t _ mname unique prepend tags _ reads).1.trainers t).cells = _
+        rw [obtainMonitor_trainers, eraseExisting_cells]
+
+/-- `add_monitor` on registration `(t, n)` writes `cell.monitors` of that registration's cell only -/
+theorem addMonitor_cellMons_frame (s : State) (t n mname : Nat) (sel : AttrSel) (unique prepend : Bool) (tags : Nat)
+    (reads : List Nat) (c' r : Nat) (h : lookup (s.trainers t).cells n ≠ some c') :
+    getCellMon (addMonitor s t n mname sel unique prepend tags reads).1.cellMons c' r = getCellMon s.cellMons c' r := by
+  unfold addMonitor
+  cases hc : lookup (s.trainers t).cells n with
+  | none => rfl
+  | some cell =>
+    simp only
+    have hne : c' ≠ cell := fun e => h (by rw [hc, e])
+    split
+    · rfl
+    · split
+      · simp only [eraseExisting_cellMons]
+      · unfold addMonitorTail poolInsert
+        simp only [setTrainer_cellMons, deregIfEval_cellMons]
+        show getCellMon (setCellMon _ cell mname _) c' r = _
+        rw [getCellMon_setCellMon_ne _ _ _ _ _ _ hne, obtainMonitor_cellMons, eraseExisting_cellMons]
+
+theorem addTemplate_cellMons_frame (tpl : List (Nat × AttrSel × Bool × Bool × Nat × List Nat)) (t n : Nat) (s : State)
+    (c' r : Nat) (h : lookup (s.trainers t).cells n ≠ some c') :
+    getCellMon (addTemplate s t n tpl).cellMons c' r = getCellMon s.cellMons c' r := by
+  induction tpl generalizing s with
+  | nil => rfl
+  | cons e rest ih =>
+    show getCellMon (addTemplate (addMonitor s t n e.1 e.2.1 e.2.2.1 e.2.2.2.1 e.2.2.2.2.1 e.2.2.2.2.2).1 t n rest).cellMons c' r = _
+    rw [ih _ (by rw [addMonitor_cells]; exact h), addMonitor_cellMons_frame _ _ _ _ _ _ _ _ _ _ _ h]
+
+theorem deregisterUnshared_cellMons (shared : List Nat) (g : List (Nat × Nat)) (s : State) :
+    (deregisterUnshared s shared g).cellMons = s.cellMons := by
+  induction g generalizing s with
+  | nil => rfl
+  | cons e rest ih => rw [deregisterUnshared_cons, ih]; split <;> simp
+
+theorem delObserved_cellMons (s : State) (t n : Nat) : (delObserved s t n).cellMons = s.cellMons := by
+  unfold delObserved; split
+  · rfl
+  · unfold dropGroup; simp [deregisterUnshared_cellMons]
+
+theorem delObserved_cells (s : State) (t n : Nat) : ((delObserved s t n).trainers t).cells = (s.trainers t).cells := by
+  unfold delObserved; split
+  · rfl
+  · unfold dropGroup; simp [deregisterUnshared_trainers]
+
+theorem delEntry_cellMons (s : State) (t n mname mid : Nat) : (delEntry s t n mname mid).cellMons = s.cellMons := by
+  unfold delEntry dropEmptyGroup deregIfUnaliased eraseEntry
+  simp only [setTrainer_cellMons]; split <;> simp
+
+theorem lookup_append_new {β : Type} (l : List (Nat × β)) (n : Nat) (v : β) (h : lookup l n = none) :
+    lookup (l ++ [(n, v)]) n = some v := by
+  induction l with
+  | nil => simp [lookup_cons]
+  | cons x xs ih =>
+    obtain ⟨k, w⟩ := x
+    rw [lookup_cons] at h
+    simp only [List.cons_append, lookup_cons]
+    split
+    · rename_i hk; simp [hk] at h
+    · rename_i hk; simp only [hk, if_false] at h; exact ih h
+
+/-- the cell whose `cell.monitors` map an operation writes -/
+def opCell (s : State) : Op → Option Nat
+  | .registerCell _ _ c _ => some c
+  | .addMonitor t n _ _ _ _ _ => lookup (s.trainers t).cells n
+  | _ => none
+
+theorem stepCore_cellMons_frame (s : State) (op : Op) (t n : Nat) (h : addressed op = some (t, n))
+    (c' r : Nat) (hD18 : opCell s op ≠ some c') :
+    getCellMon (stepCore s op).1.cellMons c' r = getCellMon s.cellMons c' r := by
+  cases op with
+  | registerCell t0 n0 c v =>
+    simp only [opCell] at hD18
+    simp only [stepCore]
+    split
+    · rfl
+    · split
+      · rfl
+      · split
+        · rfl
+        · rename_i hnew
+          have hnew : lookup (s.trainers t0).cells n0 = none := by
+            cases hl : lookup (s.trainers t0).cells n0 with
+            | none => rfl
+            | some x => simp [hl] at hnew
+          rw [addTemplate_cellMons_frame]
+          · show getCellMon (delObserved s t0 n0).cellMons c' r = _
+            rw [delObserved_cellMons]
+          · unfold addCellEntry
+            rw [setTrainer_trainers_self]
+            show lookup (((delObserved s t0 n0).trainers t0).cells ++ [(n0, c)]) n0 ≠ some c'
+            rw [delObserved_cells, lookup_append_new _ _ _ hnew]
+            exact hD18
+  | delCell t0 n0 =>
+    simp only [stepCore]
+    split
+    · rfl
+    · split
+      · rfl
+      · show getCellMon (delObserved s t0 n0).cellMons c' r = _
+        rw [delObserved_cellMons]
+  | addMonitor t0 n0 mname sel unique prepend tags =>
+    simp only [opCell] at hD18
+    simp only [stepCore]
+    split
+    · rfl
+    · exact addMonitor_cellMons_frame _ _ _ _ _ _ _ _ _ _ _ hD18
+  | delMonitor t0 n0 mname =>
+    simp only [stepCore]
+    split
+    · rfl
+    · split
+      · rfl
+      · split
+        · rfl
+        · split
+          · rfl
+          · simp only [delEntry_cellMons]
+  | _ => simp [addressed] at h
+
 end InfernoVerif.Lifecycle
